@@ -187,7 +187,12 @@ func c06(env *core.Env, mode string) {
 					return nil
 				}
 				env.Fault("backend-call-error")
-				switch c.Int("backend.errkind", 4) {
+				switch c.Int("backend.errkind", 5) {
+				case 4:
+					// an error that carries a detail: well-formed JSON, or whatever a careless
+					// backend put there
+					detail := []string{`{"k":[1,2]}`, `"s"`, `not json`, `{`, "\xff\xfe", `{"a":1}}`, ` `}[c.Int("backend.detail", 7)]
+					return ociregistry.NewError("backend says no", stdErrs[c.Int("backend.std", len(stdErrs))].Code(), json.RawMessage(detail))
 				case 0:
 					return stdErrs[c.Int("backend.std", len(stdErrs))]
 				case 1:
@@ -328,7 +333,11 @@ func c06(env *core.Env, mode string) {
 			wantDigest = d
 			path, tmpl = "/v2/"+repo+"/blobs/"+d, "blob/"+repoClass+"/"+dc
 			if c.Bool("range", 1, 3) {
-				hdr.Set("Range", []string{"bytes=0-", "bytes=0-0", "bytes=1-2", "bytes=5-1", "bytes=-5", "bytes=9999999-", "bytes=0-0,2-3", "bits=0-1", "bytes=a-b", "bytes=0-99999999999999999999", "", "bytes=", "bytes=2-"}[c.Int("range.v", 13)])
+				n := len(blobData[d]) // (0 for a digest the registry does not hold)
+				hdr.Set("Range", []string{"bytes=0-", "bytes=0-0", "bytes=1-2", "bytes=5-1", "bytes=-5", "bytes=9999999-", "bytes=0-0,2-3", "bits=0-1", "bytes=a-b", "bytes=0-99999999999999999999", "", "bytes=", "bytes=2-",
+					// at, just before and just past the end of this very blob; the largest numbers that still are numbers
+					fmt.Sprintf("bytes=%d-", n), fmt.Sprintf("bytes=%d-", max(n-1, 0)), fmt.Sprintf("bytes=%d-%d", n, n), fmt.Sprintf("bytes=0-%d", n), fmt.Sprintf("bytes=%d-", n+1),
+					"bytes=0-9223372036854775807", "bytes=0-9223372036854775806", "bytes=9223372036854775807-", "bytes=-0", "bytes=-9223372036854775807"}[c.Int("range.v", 23)])
 			}
 		case 4:
 			path, tmpl = "/v2/"+repo+"/blobs/uploads"+[]string{"/", ""}[c.Int("upl.slash", 2)], "uploads/"+repoClass
@@ -566,6 +575,14 @@ func c06(env *core.Env, mode string) {
 				var a, b, total int
 				if n, _ := fmt.Sscanf(cr, "bytes %d-%d/%d", &a, &b, &total); n != 3 || b-a+1 != len(rbytes) || (known && total != len(data)) {
 					env.Failf(class("wrong-content-range"), "GET %s (Range %q) answered 206 with Content-Range %q and %d body bytes", path, hdr.Get("Range"), cr, len(rbytes))
+				}
+				// (RFC 9110 14.4: first-pos <= last-pos < complete-length; a 206 cannot describe
+				// an empty range - a range that selects nothing is not satisfiable, 416)
+				if a >= 0 && b == a-1 && len(rbytes) == 0 {
+					env.Failf("C06/content-range-of-empty-selection/GET/blob", "GET %s (Range %q) answered 206 with Content-Range %q and no body: the range selects no byte of the %d-byte blob, which a 206 cannot describe (not satisfiable: 416)", path, hdr.Get("Range"), cr, total)
+				}
+				if a < 0 || b < a || b >= total {
+					env.Failf(class("malformed-content-range"), "GET %s (Range %q) answered 206 with Content-Range %q, which is not a byte range of a %d-byte representation", path, hdr.Get("Range"), cr, total)
 				}
 				if known && mut == "none" && a >= 0 && b < len(data) && a <= b+1 && !bytes.Equal(rbytes, data[a:b+1]) {
 					env.Failf(class("wrong-range-body"), "GET %s (Range %q): body is not bytes %d-%d of the blob", path, hdr.Get("Range"), a, b)
